@@ -761,3 +761,375 @@ Proof.
   - reflexivity.
   - reflexivity.
 Qed.
+
+(** ---- refinement to the sorted-list specification ---- *)
+Definition kv (n : node) : elt := (n_key n, n_val n).
+Lemma sl_items_kv s : sl_items s = map kv (sl_nodes s).
+Proof. reflexivity. Qed.
+
+Lemma items_filter k l : map kv (filter (keyne k) l) = zs_remove k (map kv l).
+Proof.
+  induction l as [|n l IH]; cbn [filter map zs_remove]; [reflexivity|].
+  unfold keyne at 1. cbn [kv fst]. destruct (beq (n_key n) k); cbn [negb map]; [exact IH|f_equal; exact IH].
+Qed.
+
+Lemma fkey_nonan v : f_is_nan v = false -> fkey v = f_ord v.
+Proof. unfold fkey. intros ->. reflexivity. Qed.
+Lemma ncmp_elt_cmp a b : f_is_nan (n_val a) = false -> f_is_nan (n_val b) = false ->
+  ncmp a b = elt_cmp (kv a) (kv b).
+Proof.
+  intros Ha Hb. rewrite ncmp_lex. unfold nkey, lexcmp, elt_cmp, kv. cbn [fst snd].
+  rewrite !fkey_nonan by assumption. reflexivity.
+Qed.
+Lemma node_lt_elt_ltb v k n : f_is_nan (n_val n) = false -> f_is_nan v = false ->
+  node_lt v k n = elt_ltb (kv n) (k, v).
+Proof.
+  intros Hn Hv. rewrite node_lt_ncmp. unfold elt_ltb.
+  rewrite (ncmp_elt_cmp n (mknode k v 0) Hn Hv). reflexivity.
+Qed.
+
+Lemma items_place v k h l : nonan_nodes l -> f_is_nan v = false ->
+  map kv (take_while (node_lt v k) l ++ mknode k v h :: dropw (node_lt v k) l) = zs_place (k, v) (map kv l).
+Proof.
+  intros F Hv. induction F as [|n l Hn F IH]; cbn [take_while dropw app map zs_place]; [reflexivity|].
+  rewrite (node_lt_elt_ltb v k n Hn Hv). destruct (elt_ltb (kv n) (k, v)); cbn [app map].
+  - f_equal. exact IH.
+  - reflexivity.
+Qed.
+
+Lemma alookup_zs_lookup m (l : list elt) : alookup m l = zs_lookup m l.
+Proof. induction l as [|[k s] l IH]; cbn; [reflexivity|]. destruct (beq m k); auto. Qed.
+Lemma zs_lookup_some_In m sc (l : list elt) : zs_lookup m l = Some sc -> In (m, sc) l.
+Proof.
+  induction l as [|[k s] l IH]; cbn [zs_lookup]; [discriminate|].
+  destruct (beq m k) eqn:B; intro H.
+  - apply beq_eq in B. inversion H. subst. left. reflexivity.
+  - right. auto.
+Qed.
+Lemma zs_lookup_In m sc (l : list elt) : NoDup (map fst l) -> In (m, sc) l -> zs_lookup m l = Some sc.
+Proof.
+  induction l as [|[k s] l IH]; intros N H; [destruct H|].
+  cbn [map fst] in N. inversion N as [|? ? Hn Hd]; subst. cbn [zs_lookup].
+  destruct H as [E|H].
+  - inversion E. subst. rewrite beq_refl. reflexivity.
+  - destruct (beq m k) eqn:B; [|auto]. apply beq_eq in B. subst. exfalso. apply Hn.
+    change k with (fst (k, sc)). apply in_map, H.
+Qed.
+Lemma items_keys l : map fst (map kv l) = map n_key l.
+Proof. rewrite map_map. reflexivity. Qed.
+
+Lemma index_lookup_items s m : Inv s -> alookup m (sl_index s) = zs_lookup m (sl_items s).
+Proof.
+  intro I. destruct (alookup m (sl_index s)) as [sc|] eqn:L.
+  - apply (inv_index s I) in L. symmetry. apply zs_lookup_In; [|exact L].
+    rewrite sl_items_kv, items_keys. apply (inv_members s I).
+  - destruct (zs_lookup m (sl_items s)) as [sc|] eqn:Z; [|reflexivity].
+    apply zs_lookup_some_In in Z. apply (inv_index s I) in Z. congruence.
+Qed.
+
+(** insert = "remove the member, then place (member, score) in order"; the old score is reported *)
+Theorem sl_insert_refines s k v h : Inv s -> f_is_nan v = false ->
+  sl_items (snd (sl_insert s k v h)) = zs_add k v (sl_items s) /\
+  fst (sl_insert s k v h) = zs_lookup k (sl_items s).
+Proof.
+  intros I Hv. destruct (sl_insert_char s k v h I) as [E1 E2]. split.
+  - rewrite E2. rewrite sl_items_kv. cbn [sl_nodes]. unfold zs_add.
+    rewrite sl_items_kv, <- items_filter. apply items_place; [|exact Hv].
+    pose proof (inv_nonan s I) as F. unfold nonan_nodes in *. rewrite Forall_forall in *.
+    intros x Hx. apply filter_In in Hx as [Hx _]. auto.
+  - rewrite E1. apply index_lookup_items, I.
+Qed.
+
+Lemma zs_remove_absent k (l : list elt) : zs_lookup k l = None -> zs_remove k l = l.
+Proof.
+  induction l as [|[m s] l IH]; cbn [zs_lookup zs_remove fst]; [reflexivity|].
+  destruct (beq k m) eqn:B; [discriminate|]. intro H.
+  assert (beq m k = false) as ->.
+  { apply beq_false_ne. apply beq_false_ne in B. congruence. }
+  f_equal. auto.
+Qed.
+
+Theorem sl_remove_refines s k : Inv s ->
+  sl_items (snd (sl_remove s k)) = zs_remove k (sl_items s) /\
+  fst (sl_remove s k) = zs_lookup k (sl_items s).
+Proof.
+  intro I. destruct (sl_remove_char s k I) as [E1 E2]. split.
+  - rewrite E2. pose proof (index_lookup_items s k I) as L.
+    destruct (alookup k (sl_index s)) as [old|].
+    + cbv zeta. rewrite !sl_items_kv. cbn [sl_nodes]. apply items_filter.
+    + symmetry. apply zs_remove_absent. congruence.
+  - rewrite E1. apply index_lookup_items, I.
+Qed.
+
+(** the abstract state of a list satisfying the invariant is a well-formed sorted set *)
+Lemma inv_zs_ok s : Inv s -> zs_ok (sl_items s).
+Proof.
+  intro I. rewrite sl_items_kv. repeat split.
+  - pose proof (inv_sorted s I) as S. pose proof (inv_nonan s I) as F. unfold zs_sorted, ssorted, nonan_nodes in *.
+    induction S as [|a l Hs IH Hf]; cbn [map]; [constructor|].
+    inversion F as [|? ? Ha Fl]; subst. constructor; [auto|].
+    rewrite Forall_forall in *. intros e He. apply in_map_iff in He as (b & <- & Hb).
+    rewrite <- ncmp_elt_cmp; auto.
+  - unfold zs_members. rewrite items_keys. apply (inv_members s I).
+  - unfold zs_nonan. rewrite Forall_map. apply (inv_nonan s I).
+Qed.
+
+(** ... and every well-formed sorted set is the abstract state of a list satisfying the invariant *)
+Definition sl_of_items (z : list elt) : sl :=
+  {| sl_nodes := map (fun p => mknode (fst p) (snd p) 0) z; sl_index := z; sl_length := len z; sl_level := O |}.
+Lemma sl_of_items_items z : sl_items (sl_of_items z) = z.
+Proof.
+  unfold sl_items, sl_of_items. cbn [sl_nodes]. rewrite map_map. cbn [mknode n_key n_val].
+  rewrite <- (map_id z) at 2. apply map_ext. intros [a b]. reflexivity.
+Qed.
+Lemma alookup_In_iff m sc (l : list elt) : NoDup (map fst l) -> (alookup m l = Some sc <-> In (m, sc) l).
+Proof.
+  intro N. rewrite alookup_zs_lookup. split; [apply zs_lookup_some_In|apply zs_lookup_In, N].
+Qed.
+Lemma zs_ok_inv z : zs_ok z -> Inv (sl_of_items z).
+Proof.
+  intros (S & N & F). constructor.
+  - cbn [sl_of_items sl_nodes]. unfold ssorted, zs_sorted, zs_nonan in *.
+    induction S as [|a l Hs IH Hf]; cbn [map]; [constructor|].
+    inversion F as [|? ? Ha Fl]; subst. cbn [zs_members map] in N. inversion N; subst.
+    constructor; [apply IH; assumption|].
+    rewrite Forall_forall in *. intros n Hn. apply in_map_iff in Hn as (b & <- & Hb).
+    rewrite ncmp_elt_cmp; cbn [mknode n_val]; auto. unfold kv. cbn [mknode n_key n_val].
+    destruct a, b. cbn [fst snd]. apply Hf in Hb. exact Hb.
+  - cbn [sl_of_items sl_nodes]. rewrite map_map. cbn [mknode n_key]. exact N.
+  - cbn [sl_of_items sl_nodes]. unfold nonan_nodes. rewrite Forall_map. cbn [mknode n_val]. exact F.
+  - intros m sc. rewrite sl_of_items_items. cbn [sl_of_items sl_index]. apply alookup_In_iff, N.
+  - exact N.
+  - cbn [sl_of_items sl_nodes sl_length]. unfold len. rewrite map_length. reflexivity.
+  - cbn [sl_of_items sl_nodes sl_level]. clear. induction z as [|a z IH]; cbn; [reflexivity|]. fold (max_lvl (map (fun p => mknode (fst p) (snd p) 0) z)). rewrite <- IH. reflexivity.
+Qed.
+
+(** consequences at the specification level *)
+Theorem zs_add_ok m v z : zs_ok z -> f_is_nan v = false -> zs_ok (zs_add m v z).
+Proof.
+  intros Z Hv. pose proof (zs_ok_inv z Z) as I.
+  destruct (sl_insert_refines (sl_of_items z) m v 0 I Hv) as [E _].
+  rewrite sl_of_items_items in E. rewrite <- E. apply inv_zs_ok. apply sl_insert_inv; assumption.
+Qed.
+Theorem zs_remove_ok m z : zs_ok z -> zs_ok (zs_remove m z).
+Proof.
+  intro Z. pose proof (zs_ok_inv z Z) as I.
+  destruct (sl_remove_refines (sl_of_items z) m I) as [E _].
+  rewrite sl_of_items_items in E. rewrite <- E. apply inv_zs_ok. apply sl_remove_inv; assumption.
+Qed.
+
+Lemma zs_lookup_remove_same m z : zs_lookup m (zs_remove m z) = None.
+Proof.
+  induction z as [|[k s] z IH]; cbn [zs_remove zs_lookup fst]; [reflexivity|].
+  destruct (beq k m) eqn:B; [exact IH|]. cbn [zs_lookup].
+  assert (beq m k = false) as -> by (apply beq_false_ne; apply beq_false_ne in B; congruence). exact IH.
+Qed.
+Lemma zs_lookup_remove_other m m' z : m' <> m -> zs_lookup m' (zs_remove m z) = zs_lookup m' z.
+Proof.
+  intro Hne. induction z as [|[k s] z IH]; cbn [zs_remove zs_lookup fst]; [reflexivity|].
+  destruct (beq k m) eqn:B.
+  - apply beq_eq in B. subst. assert (beq m' m = false) as -> by (apply beq_false_ne; exact Hne). exact IH.
+  - cbn [zs_lookup]. destruct (beq m' k); [reflexivity|exact IH].
+Qed.
+Lemma zs_lookup_place_same m v z : zs_lookup m z = None -> zs_lookup m (zs_place (m, v) z) = Some v.
+Proof.
+  induction z as [|[k s] z IH]; cbn [zs_place zs_lookup]; intro H.
+  - rewrite beq_refl. reflexivity.
+  - destruct (beq m k) eqn:B; [discriminate|]. destruct (elt_ltb (k, s) (m, v)); cbn [zs_lookup].
+    + rewrite B. auto.
+    + rewrite beq_refl. reflexivity.
+Qed.
+Lemma zs_lookup_place_other m m' v z : m' <> m -> zs_lookup m' (zs_place (m, v) z) = zs_lookup m' z.
+Proof.
+  intro Hne. assert (beq m' m = false) as Bm by (apply beq_false_ne; exact Hne).
+  induction z as [|[k s] z IH]; cbn [zs_place zs_lookup].
+  - rewrite Bm. reflexivity.
+  - destruct (elt_ltb (k, s) (m, v)); cbn [zs_lookup].
+    + destruct (beq m' k); [reflexivity|exact IH].
+    + rewrite Bm. reflexivity.
+Qed.
+(** latest score wins; other members keep theirs *)
+Theorem zs_lookup_add_same m v z : zs_lookup m (zs_add m v z) = Some v.
+Proof. apply zs_lookup_place_same, zs_lookup_remove_same. Qed.
+Theorem zs_lookup_add_other m m' v z : m' <> m -> zs_lookup m' (zs_add m v z) = zs_lookup m' z.
+Proof. intro H. unfold zs_add. rewrite zs_lookup_place_other, zs_lookup_remove_other; auto. Qed.
+
+(** ---- ranks ---- *)
+Lemma option_map_add_add acc (x : option Z) :
+  option_map (Z.add acc) (option_map (Z.add 1) x) = option_map (Z.add (acc + 1)) x.
+Proof. destruct x; cbn [option_map]; [f_equal; lia|reflexivity]. Qed.
+
+Lemma rank_walk_member l : forall t acc, ssorted l -> NoDup (map n_key l) -> In t l ->
+  rank_walk (n_val t) (n_key t) l acc = option_map (Z.add acc) (zs_rank (n_key t) (map kv l)).
+Proof.
+  induction l as [|a l IH]; intros t acc S N Hin; [destruct Hin|].
+  inversion S as [|? ? Sl Hf]; subst. cbn [map] in N. inversion N as [|? ? Hn Nl]; subst.
+  cbn [rank_walk map zs_rank]. fold (ncmp a t). cbn [kv fst].
+  destruct Hin as [->|Hin].
+  - rewrite ncmp_refl, beq_refl. cbn. f_equal. lia.
+  - rewrite Forall_forall in Hf. rewrite (Hf t Hin).
+    assert (beq (n_key a) (n_key t) = false) as ->.
+    { apply beq_false_ne. intro E. apply Hn. rewrite E. apply in_map, Hin. }
+    rewrite IH by assumption. symmetry. apply option_map_add_add.
+Qed.
+
+Lemma zs_rank_absent m (l : list elt) : ~ In m (map fst l) -> zs_rank m l = None.
+Proof.
+  induction l as [|e l IH]; cbn [map zs_rank In]; intro H; [reflexivity|].
+  assert (beq (fst e) m = false) as -> by (apply beq_false_ne; tauto).
+  rewrite IH by tauto. reflexivity.
+Qed.
+
+(** get_rank is the position in the sorted order *)
+Theorem sl_get_rank_spec s m : Inv s -> sl_get_rank s m = zs_rank m (sl_items s).
+Proof.
+  intro I. unfold sl_get_rank. destruct (alookup m (sl_index s)) as [sc|] eqn:L.
+  - apply (inv_index s I) in L. apply items_In in L as (t & Ht & <- & <-).
+    rewrite (rank_walk_member (sl_nodes s) t 0 (inv_sorted s I) (inv_members s I) Ht).
+    rewrite sl_items_kv. destruct (zs_rank (n_key t) (map kv (sl_nodes s))); reflexivity.
+  - symmetry. apply zs_rank_absent. intro H. apply in_map_iff in H as ([k sc] & E & H).
+    cbn [fst] in E. subst k. apply (inv_index s I) in H. congruence.
+Qed.
+
+Lemma zs_rank_nth (l : list elt) m : forall i, NoDup (map fst l) ->
+  (zs_rank m l = Some i <-> 0 <= i /\ nth_error (map fst l) (Z.to_nat i) = Some m).
+Proof.
+  induction l as [|e l IH]; intros i N.
+  - cbn. split; [discriminate|]. intros [_ H]. destruct (Z.to_nat i); discriminate.
+  - cbn [map] in N. inversion N as [|? ? Hn Nl]; subst. cbn [zs_rank map].
+    destruct (beq (fst e) m) eqn:B.
+    + apply beq_eq in B. split.
+      * intro H. inversion H. subst. split; [lia|]. reflexivity.
+      * intros [H0 H]. destruct (Z.to_nat i) eqn:E; [f_equal; lia|].
+        cbn [nth_error] in H. apply nth_error_In in H. subst m. contradiction.
+    + apply beq_false_ne in B. destruct (zs_rank m l) as [j|] eqn:R; cbn [option_map].
+      * destruct (proj1 (IH j Nl) eq_refl) as [Hj Hn']. split.
+        -- intro H. assert (i = 1 + j) by congruence. subst i. split; [lia|].
+           replace (Z.to_nat (1 + j)) with (S (Z.to_nat j)) by lia. exact Hn'.
+        -- intros [H0 H]. destruct (Z.to_nat i) eqn:E; [cbn in H; congruence|].
+           cbn [nth_error] in H. assert (Some j = Some (i - 1)) as R'.
+           { apply IH; [exact Nl|]. split; [lia|]. replace (Z.to_nat (i - 1)) with n by lia. exact H. }
+           assert (j = i - 1) by congruence. f_equal. lia.
+      * split; [discriminate|]. intros [H0 H]. destruct (Z.to_nat i) eqn:E; [cbn in H; congruence|].
+        cbn [nth_error] in H. assert (@None Z = Some (i - 1)) as R'.
+        { apply IH; [exact Nl|]. split; [lia|]. replace (Z.to_nat (i - 1)) with n by lia. exact H. }
+        discriminate.
+Qed.
+
+Lemma sl_range_all s : sl_length s = len (sl_nodes s) ->
+  sl_range_by_rank s 0 (sl_length s - 1) = sl_nodes s.
+Proof.
+  intro E. unfold sl_range_by_rank. rewrite E. destruct (len (sl_nodes s) <=? 0) eqn:C.
+  - apply Z.leb_le in C. unfold len in C. destruct (sl_nodes s); [reflexivity|cbn in C; lia].
+  - cbn [Z.to_nat skipn]. replace (Z.to_nat (Z.min (len (sl_nodes s) - 1 + 1) (len (sl_nodes s)) - 0)) with (length (sl_nodes s)) by (unfold len; lia).
+    apply firstn_all.
+Qed.
+
+(** rank and range agree: m has rank i iff it is the i-th member of the full range *)
+Theorem sl_rank_range_agree s m i : Inv s ->
+  (sl_get_rank s m = Some i <->
+   0 <= i /\ nth_error (map n_key (sl_range_by_rank s 0 (sl_length s - 1))) (Z.to_nat i) = Some m).
+Proof.
+  intro I. rewrite sl_get_rank_spec by exact I. rewrite sl_range_all by apply (inv_length s I).
+  rewrite <- items_keys, <- sl_items_kv. apply zs_rank_nth.
+  rewrite sl_items_kv, items_keys. apply (inv_members s I).
+Qed.
+
+(** ---- score ranges ---- *)
+Lemma filter_none {A} (p : A -> bool) l : forallb (fun x => negb (p x)) l = true -> filter p l = [].
+Proof.
+  induction l as [|x l IH]; cbn [forallb filter]; intro H; [reflexivity|].
+  apply andb_prop in H as [Hx Hl]. apply negb_true_iff in Hx. rewrite Hx. auto.
+Qed.
+Lemma mono_take_filter {A} (p : A -> bool) l : mono p l -> take_while p l = filter p l.
+Proof.
+  unfold mono. induction l as [|x l IH]; cbn [dropw take_while filter]; intro M; [reflexivity|].
+  destruct (p x) eqn:E.
+  - f_equal. auto.
+  - cbn [forallb] in M. apply andb_prop in M as [_ M]. symmetry. apply filter_none, M.
+Qed.
+Lemma mono_drop_filter {A} (p : A -> bool) l : mono p l -> dropw p l = filter (fun x => negb (p x)) l.
+Proof.
+  unfold mono. induction l as [|x l IH]; cbn [dropw filter]; intro M; [reflexivity|].
+  destruct (p x) eqn:E; cbn [negb].
+  - auto.
+  - cbn [forallb] in M. apply andb_prop in M as [_ M]. f_equal. symmetry. apply filter_id.
+    rewrite forallb_forall in M. exact M.
+Qed.
+
+Lemma ncmp_lt_ord a b : f_is_nan (n_val a) = false -> f_is_nan (n_val b) = false ->
+  ncmp a b = Lt -> f_ord (n_val a) <= f_ord (n_val b).
+Proof.
+  intros Ha Hb. rewrite (ncmp_elt_cmp a b Ha Hb). unfold elt_cmp, kv. cbn [fst snd].
+  destruct (Z.compare_spec (f_ord (n_val a)) (f_ord (n_val b))); try discriminate; intros _; lia.
+Qed.
+
+(** a predicate on scores that is closed downwards holds on a prefix of a sorted list *)
+Lemma mono_downclosed (pv : Z -> bool) l :
+  (forall a b, f_is_nan a = false -> f_is_nan b = false -> f_ord a <= f_ord b -> pv b = true -> pv a = true) ->
+  ssorted l -> nonan_nodes l -> mono (fun n => pv (n_val n)) l.
+Proof.
+  intros D S F. unfold mono. induction S as [|a l Sl IH Hf]; [reflexivity|].
+  inversion F as [|? ? Ha Fl]; subst. cbn [dropw]. destruct (pv (n_val a)) eqn:E; [auto|].
+  cbn [forallb]. rewrite E. cbn [negb andb]. apply forallb_forall. intros x Hx.
+  rewrite Forall_forall in Hf, Fl. destruct (pv (n_val x)) eqn:Ex; [|reflexivity].
+  rewrite (D (n_val a) (n_val x) Ha (Fl x Hx) (ncmp_lt_ord a x Ha (Fl x Hx) (Hf x Hx)) Ex) in E. discriminate.
+Qed.
+
+Lemma f_lt_down mn a b : f_is_nan a = false -> f_is_nan b = false -> f_ord a <= f_ord b ->
+  f_lt b mn = true -> f_lt a mn = true.
+Proof.
+  unfold f_lt, f_pcmp. intros Ha Hb Hle. rewrite Ha, Hb. cbn [orb]. destruct (f_is_nan mn); [discriminate|].
+  destruct (Z.compare_spec (f_ord b) (f_ord mn)); try discriminate. intros _.
+  destruct (Z.compare_spec (f_ord a) (f_ord mn)); try reflexivity; lia.
+Qed.
+Lemma f_le_down mx a b : f_is_nan a = false -> f_is_nan b = false -> f_ord a <= f_ord b ->
+  f_le b mx = true -> f_le a mx = true.
+Proof.
+  unfold f_le, f_pcmp. intros Ha Hb Hle. rewrite Ha, Hb. cbn [orb]. destruct (f_is_nan mx); [discriminate|].
+  destruct (Z.compare_spec (f_ord b) (f_ord mx)); try discriminate; intros _;
+  destruct (Z.compare_spec (f_ord a) (f_ord mx)); try reflexivity; lia.
+Qed.
+Lemma f_lt_negb_le v mn : f_is_nan v = false -> f_is_nan mn = false -> negb (f_lt v mn) = f_le mn v.
+Proof.
+  intros Hv Hm. unfold f_lt, f_le, f_pcmp. rewrite Hv, Hm. cbn [orb].
+  rewrite (Z.compare_antisym (f_ord v) (f_ord mn)). destruct (f_ord v ?= f_ord mn); reflexivity.
+Qed.
+
+Lemma filter_filter {A} (p q : A -> bool) l : filter p (filter q l) = filter (fun x => q x && p x) l.
+Proof.
+  induction l as [|x l IH]; cbn [filter]; [reflexivity|].
+  destruct (q x); cbn [filter andb]; [destruct (p x); [f_equal|]; exact IH|exact IH].
+Qed.
+Lemma filter_map_kv (p : elt -> bool) l : map kv (filter (fun n => p (kv n)) l) = filter p (map kv l).
+Proof.
+  induction l as [|n l IH]; cbn [filter map]; [reflexivity|].
+  destruct (p (kv n)); cbn [map]; [f_equal|]; exact IH.
+Qed.
+Lemma filter_ext_in' {A} (p q : A -> bool) l : (forall x, In x l -> p x = q x) -> filter p l = filter q l.
+Proof.
+  induction l as [|x l IH]; intro H; cbn [filter]; [reflexivity|].
+  rewrite (H x (or_introl eq_refl)). rewrite IH by (intros; apply H; right; auto). reflexivity.
+Qed.
+
+(** range_by_score (tower walk over `value < min`, then collect while `value <= max`)
+    returns exactly the members whose score lies in [min, max], in order *)
+Theorem sl_range_by_score_spec s mn mx : Inv s -> f_is_nan mn = false ->
+  map kv (sl_range_by_score s mn mx) = zs_byscore mn mx (sl_items s).
+Proof.
+  intros I Hmn. unfold sl_range_by_score.
+  pose proof (inv_sorted s I) as S. pose proof (inv_nonan s I) as F.
+  assert (M1 : mono (fun n => f_lt (n_val n) mn) (sl_nodes s)).
+  { apply (mono_downclosed (fun v => f_lt v mn)); [apply f_lt_down|exact S|exact F]. }
+  rewrite search_take_while by exact M1.
+  rewrite <- (take_drop (fun n => f_lt (n_val n) mn) (sl_nodes s)) at 2. rewrite skipn_len_app.
+  rewrite mono_drop_filter by exact M1.
+  set (l' := filter (fun x => negb (f_lt (n_val x) mn)) (sl_nodes s)).
+  assert (M2 : mono (fun n => f_le (n_val n) mx) l').
+  { apply (mono_downclosed (fun v => f_le v mx)); [apply f_le_down|apply ss_filter, S|].
+    unfold nonan_nodes in *. rewrite Forall_forall in *. intros x Hx. apply filter_In in Hx as [Hx _]. auto. }
+  rewrite mono_take_filter by exact M2. unfold l'. rewrite filter_filter.
+  unfold zs_byscore. rewrite sl_items_kv, <- filter_map_kv. f_equal.
+  apply filter_ext_in'. intros x Hx. unfold kv. cbn [snd].
+  unfold nonan_nodes in F. rewrite Forall_forall in F. rewrite f_lt_negb_le by auto. reflexivity.
+Qed.
